@@ -127,6 +127,7 @@ def _object_loop(ctx: Ctx, fname: str):
 
 def op_table(ctx: Ctx, rule: str, op: str) -> None:
     fref, loop = _object_loop(ctx, f"{op}_states")
+    ctx.require_locals(fref, ["state_backend", "state_exists", "state_object", "action_if_exists", "action_if_doesnt_exist"])
     interesting = names_interesting(set(MUTATORS) | {"_state_check_chain", "check_root", "show"}, extra=lambda n: isinstance(n, ast.Raise))
     views = loop_iteration_views(ctx, fref, loop, interesting)
     for v in views:
@@ -205,6 +206,7 @@ def op_table(ctx: Ctx, rule: str, op: str) -> None:
 
 def check_table(ctx: Ctx, rule: str) -> None:
     fref, loop = _object_loop(ctx, "check_states")
+    ctx.require_locals(fref, ["root_exists", "root_params", "state_backend", "state_exists", "state"])
     interesting = names_interesting(set(MUTATORS) | {"check_root", "show", "root_exists", "state_exists"},
                                     extra=lambda n: isinstance(n, (ast.Raise, ast.Return)))
     views = loop_iteration_views(ctx, fref, loop, interesting)
